@@ -395,7 +395,7 @@ func checkC07(c *Check) {
 
 	// ---- R4: which policy applies. RFC 7489 §6.3: the record's sp= is the requested policy when the record was found at
 	// another (the organizational) domain than the From domain and sp is present; p= otherwise.
-	c.Rule("R4", "Verifier.Apply: the policy returned is the record's subdomain policy exactly in the world 'record found at a domain other than the From domain, and sp present' – the record's policy otherwise (reaching definitions of the returned value per world)", 1)
+	c.Rule("R4", "Verifier.Apply: the policy returned is the record's subdomain policy exactly in the world 'record found at a domain other than the From domain, and sp present' – the record's policy otherwise (reaching definitions of the returned value per world)", 2)
 	{
 		msg4 := ""
 		{
@@ -512,5 +512,84 @@ func checkC07(c *Check) {
 			}
 		}
 		c.Hold("R4", "Verifier.Apply:policy-selection", ra.FI.Decl.Pos(), msg4 == "", msg4)
+	}
+	// … and "where the record was found" is what FetchRecord reports: the domain returned together with a record is
+	// the domain used in the lookup that produced it
+	if fr := c.In("internal/dmarc", "", "FetchRecord"); fr != nil {
+		fi := fr.Info
+		isLookup := func(info *types.Info, call *ast.CallExpr) bool { return methodName(call) == "LookupTXT" }
+		lookups := fr.Calls(isLookup)
+		domOf := func(call *ast.CallExpr) types.Object {
+			var dom types.Object
+			if len(call.Args) >= 2 {
+				ast.Inspect(call.Args[1], func(n ast.Node) bool {
+					if id, ok := n.(*ast.Ident); ok {
+						if v, ok := fi.Uses[id].(*types.Var); ok && isStringType(v.Type()) {
+							dom = v
+						}
+					}
+					return true
+				})
+			}
+			return dom
+		}
+		// the return that hands a record back: first result is a local, second is not the nil literal
+		var retPt Pt
+		var pd *types.Var
+		for _, blk := range fr.F.G.Blocks {
+			pt := Pt{blk, len(blk.Nodes)}
+			_, ret := fr.F.Exit(pt)
+			if ret != nil && len(ret.Results) == 3 && !isNilIdent(fi, ret.Results[1]) {
+				if v, ok := objOf(fi, ret.Results[0]).(*types.Var); ok {
+					pd, retPt = v, Pt{blk, len(blk.Nodes) - 1}
+				}
+			}
+		}
+		msg5 := ""
+		if pd == nil || len(lookups) < 2 {
+			msg5 = "undecided: expected two TXT lookups and a return of (domain, record, error)"
+		} else {
+			isDef := func(q Pt) bool { return q.Node() != nil && assignsObj(fi, q.Node(), pd) }
+			for _, lp := range lookups {
+				dom := domOf(fr.CallAt(lp, isLookup))
+				others := func(q Pt) bool { return q != lp && isPt(lookups)(q) }
+				// is this lookup the last one on some path to the return?
+				if _, last := fr.F.Reach(Query{From: []Pt{lp}, Target: func(q Pt) bool { return q == retPt }, Avoid: others}); !last {
+					continue
+				}
+				sawDef := false
+				for _, dp := range fr.F.Points() {
+					if !isDef(dp) {
+						continue
+					}
+					_, before := fr.F.Reach(Query{From: []Pt{dp}, Target: func(q Pt) bool { return q == lp }, Avoid: func(q Pt) bool { return q != lp && isDef(q) }})
+					reaches := false
+					if before {
+						_, reaches = fr.F.Reach(Query{From: []Pt{lp}, Target: func(q Pt) bool { return q == retPt }, Avoid: func(q Pt) bool { return isDef(q) || others(q) }})
+					} else if _, after := fr.F.Reach(Query{From: []Pt{lp}, Target: func(q Pt) bool { return q == dp }, Avoid: others}); after {
+						_, reaches = fr.F.Reach(Query{From: []Pt{dp}, Target: func(q Pt) bool { return q == retPt }, Avoid: func(q Pt) bool { return isDef(q) || others(q) }})
+					}
+					if !reaches {
+						continue
+					}
+					var rhs ast.Expr
+					if as, ok := dp.Node().(*ast.AssignStmt); ok {
+						for i, l := range as.Lhs {
+							if objOf(fi, l) == pd && len(as.Rhs) == len(as.Lhs) {
+								rhs = as.Rhs[i]
+							}
+						}
+					}
+					sawDef = true
+					if rhs == nil || objOf(fi, rhs) != dom || dom == nil {
+						msg5 = "the domain returned with a record can differ from the domain whose lookup produced it (the choice between p= and sp= is made for the wrong domain)"
+					}
+				}
+				if !sawDef {
+					msg5 = "a record can be returned without the domain it was found at having been set (the zero value is returned)"
+				}
+			}
+		}
+		c.Hold("R4", "FetchRecord:domain-of-the-record", fr.FI.Decl.Pos(), msg5 == "", msg5)
 	}
 }
